@@ -22,7 +22,7 @@ MANIFEST = {
             "dispatch of encoding classes without a class theorem, the opcode tables. Trusted: Lean kernel + bv_decide certificates; "
             "Spec/X86Decode.lean as the reading of the SDM; db/x86.js + tools/gen_c01.py (with its listed database errata); harness/driver/diff.",
 }
-MODS = ["AsmjitVerif.Props.C01", "AsmjitVerif.Props.C01Front", "AsmjitVerif.Props.C01Rows", "AsmjitVerif.Props.C01Front32", "AsmjitVerif.Props.C01Rows32", "AsmjitVerif.Props.C01FrontMem", "AsmjitVerif.Props.C01FrontMemG", "AsmjitVerif.Props.C01FrontMemV", "AsmjitVerif.Props.C01FrontMemX", "AsmjitVerif.Props.C01RowsMem", "AsmjitVerif.Props.C01FrontDec", "AsmjitVerif.Props.C01FrontMemB", "AsmjitVerif.Props.C01RowsMemB", "AsmjitVerif.Props.C01FrontLeg32", "AsmjitVerif.Props.C01FrontArith", "AsmjitVerif.Props.C01RowsArith", "AsmjitVerif.Props.C01FrontOpReg", "AsmjitVerif.Props.C01FrontLegMem", "AsmjitVerif.Props.C01RowsLegMem", "AsmjitVerif.Props.C01RowsMov", "AsmjitVerif.Props.C01FrontMr", "AsmjitVerif.Props.C01RowsMr", "AsmjitVerif.Props.C01FrontRel", "AsmjitVerif.Props.C01FrontAbs", "AsmjitVerif.Props.C01FrontOpt"]
+MODS = ["AsmjitVerif.Props.C01", "AsmjitVerif.Props.C01Front", "AsmjitVerif.Props.C01Rows", "AsmjitVerif.Props.C01Front32", "AsmjitVerif.Props.C01Rows32", "AsmjitVerif.Props.C01FrontMem", "AsmjitVerif.Props.C01FrontMemG", "AsmjitVerif.Props.C01FrontMemV", "AsmjitVerif.Props.C01FrontMemX", "AsmjitVerif.Props.C01RowsMem", "AsmjitVerif.Props.C01FrontDec", "AsmjitVerif.Props.C01FrontMemB", "AsmjitVerif.Props.C01RowsMemB", "AsmjitVerif.Props.C01FrontLeg32", "AsmjitVerif.Props.C01FrontArith", "AsmjitVerif.Props.C01RowsArith", "AsmjitVerif.Props.C01FrontOpReg", "AsmjitVerif.Props.C01FrontLegMem", "AsmjitVerif.Props.C01RowsLegMem", "AsmjitVerif.Props.C01RowsMov", "AsmjitVerif.Props.C01FrontMr", "AsmjitVerif.Props.C01RowsMr", "AsmjitVerif.Props.C01FrontRel", "AsmjitVerif.Props.C01FrontAbs", "AsmjitVerif.Props.C01FrontOpt", "AsmjitVerif.Props.C01FrontDec32"]
 BASE = c01_forms.BASE_ADDR
 
 # classes of known, not (yet) repaired findings -> stable keys (known_findings.json)
@@ -186,7 +186,9 @@ def theorem_family(ew, enc, names, iflags=0x400000):
             if any(o not in ("z", "er", "sae", "rn", "rd", "ru", "rz") for o in optl):
                 return None
             if mode == 32:
-                return "vex_reg32" if not optl and k == "-" and sh in ("rvm", "rm", "rvmi", "rmi") else None
+                if sh not in ("rvm", "rm", "rvmi", "rmi"):
+                    return None
+                return "vex_reg32" if not optl and k == "-" else "vex_reg32_dec"          # Props/C01FrontDec32.lean
             if sh in ("mr", "mri") and (optl or k != "-"):
                 return None
             return "vex_reg" + ("_dec" if optl or k != "-" else "")
@@ -503,6 +505,7 @@ def run(res):
         fam = collections.Counter()
         outside = collections.Counter()
         encn = encoding_names()
+        cov_mode = collections.Counter()
         for i in acc:
             ew = emits[i].split()
             if ew[3] not in rows:
@@ -511,12 +514,14 @@ def run(res):
             t = theorem_family(ew, encid, gen_c01.COVER_NAMES, int(rows[ew[3]][4], 16))
             if t:
                 fam[t.split("_mem_")[0] + ("_mem" if "_mem_" in t else "")] += 1
+                cov_mode[ew[0]] += 1
             else:
                 outside["(32-bit mode, any class)" if ew[0] == "32" else encn.get(encid, "enc_%02x" % encid)] += 1
         ncov = sum(fam.values())
         res.coverage["class_theorem_domain"] = {
             "accepted_calls": len(acc), "inside_some_theorem": ncov, "fraction": round(ncov / max(1, len(acc)), 4),
-            "fraction_64bit": round(ncov / max(1, sum(1 for i in acc if emits[i].startswith("64 "))), 4),
+            "fraction_64bit": round(cov_mode["64"] / max(1, sum(1 for i in acc if emits[i].startswith("64 "))), 4),
+            "fraction_32bit": round(cov_mode["32"] / max(1, sum(1 for i in acc if emits[i].startswith("32 "))), 4),
             "by_family": dict(fam.most_common()), "outside_by_encoding_class": dict(outside.most_common()),
             "note": "Python approximation of the hypotheses of the front_cls_correct_* theorems and their dispatch lemmas"}
     except Exception as ex:
